@@ -210,6 +210,10 @@ pub struct Phase {
     pub expect_panicked: Vec<u8>,
     /// C15: capacity probe at the start of this phase
     pub capacity_probe: bool,
+    /// C17: the `Despawn` actions of this phase run after its callers have been started, i.e. concurrently with their
+    /// scheduling calls (all other root actions still run first, at the quiescence between the phases)
+    #[serde(default)]
+    pub root_late: bool,
 }
 
 #[derive(Clone, Copy, Debug, PartialEq, Eq, Serialize, Deserialize)]
